@@ -242,6 +242,26 @@ def run(c, prog):
             return None
         ln = algebra.LoopNest(fn, symfn)
         ln.run(fn.body)
+        chain_size = None
+        for lid_, dims, el, node_ in getattr(ln, "pending_collect", []):
+            # a buffer built as one collected iterator chain: element rank = lexicographic rank of the nested indices
+            lens = []
+            for sname, ln_ in dims:
+                if isinstance(ln_, tuple):
+                    ln_ = Poly.sym("len") if (ln_[1] == plid and ln_[2] == 0) else (Poly.sym("N") if (ln_[1] == plid and ln_[2] == 1) else None)
+                if ln_ is None:
+                    raise NotAffine(f"{fn.path}: a dimension of the collected chain has no known length")
+                lens.append(ln_)
+            pos = Poly.const(0)
+            for k_, (sname, _l) in enumerate(dims):
+                stride = Poly.const(1)
+                for m_ in lens[k_ + 1:]:
+                    stride = stride * m_
+                pos = pos + Poly.sym(sname) * stride
+            ln.moves.append(((lid_, [pos]), el, node_))
+            chain_size = Poly.const(1)
+            for m_ in lens:
+                chain_size = chain_size * m_
         if len(ln.moves) != 1:
             raise core.AnchorMissing(f"{fn.path}: expected exactly one element move inside the loops, found {len(ln.moves)}")
         dst, src, node = ln.moves[0]
@@ -264,7 +284,7 @@ def run(c, prog):
             raise NotAffine(f"{fn.path}: both dimensions use the same loop variable")
         ren = {syms[0]: "i", syms[1]: "j"}
         poly = Poly({tuple(sorted(ren.get(x, x) for x in k)): v for k, v in buf[1][0].d.items()})
-        size = None
+        size = chain_size
         for n in core.walk_fn(fn):
             if n.get("k") == "Call" and n["f"].get("def") == "alloc::vec::from_elem":
                 size = algebra.poly_eval(n["args"][1], ln.env, symfn)
